@@ -403,7 +403,7 @@ SPECS["C17"] = CheckSpec(
          "followed by a Serial Query without sleeping; states = cases + conversation states",
     assumptions=["the interval code only compares against the six range constants, so the boundary set is a complete "
                  "partition (the thorough sweep checks this claim)"] + _ENVX_ASSUME,
-    counters_map={"distinct": ["distinct_outcomes", "states"]},
+    counters_map={"executions": ["transitions"], "distinct": ["distinct_outcomes", "states"]},
     level_text="Exhaustive enumeration of the boundary partition of the three 32-bit fields in every mode through the "
                "real synchronisation path (and of the full 2^32 range in the thorough tier), plus explicit-state "
                "exploration of the polling behaviour of the real FSM under the simulated clock.",
